@@ -13,6 +13,28 @@ structure R (m : Mon) (s : Iter) : Prop where
   accepted : ∀ q, find s.closest q = some .succeeded → q ∈ m.accepted
   fin : m.fin = isFinished s
 
+/-- link for the derived progress state: the monitor's sorted list of learned peers has the
+iterator's keys, its derived state is the iterator's (while unfinished), and it remembers
+`num_waiting` -/
+structure R2 (m : Mon) (s : Iter) : Prop where
+  keys : keys m.shadow = keys s.closest
+  st : s.state ≠ .finished → m.st = s.state
+  nw : m.nw = s.numWaiting
+
+theorem shadowStep_fields (m : Mon) (op : Op) (out : Out) :
+    (shadowStep m op out).cfg = m.cfg ∧ (shadowStep m op out).learned = m.learned ∧
+    (shadowStep m op out).issued = m.issued ∧ (shadowStep m op out).accepted = m.accepted ∧
+    (shadowStep m op out).fin = m.fin := by
+  unfold shadowStep; split <;> simp
+
+theorem R.congr {m m' : Mon} {s : Iter} (h : R m s) (e1 : m'.cfg = m.cfg) (e2 : m'.learned = m.learned)
+    (e3 : m'.issued = m.issued) (e4 : m'.accepted = m.accepted) (e5 : m'.fin = m.fin) : R m' s :=
+  ⟨e1 ▸ h.cfg, by rw [e2]; exact h.learned, by rw [e3]; exact h.issued, by rw [e3]; exact h.nodup,
+    by rw [e4]; exact h.accepted, by rw [e5]; exact h.fin⟩
+
+theorem cap_eq_capOf (s : Iter) : cap s = capOf s.cfg s.state := by
+  unfold cap capOf; cases s.state <;> rfl
+
 theorem ins_of_find {cl : List (Nat × PState)} (hs : Sorted cl) {p : Nat} {st : PState}
     (h : find cl p = some st) : ins cl p = cl := by
   induction cl with
@@ -100,7 +122,8 @@ theorem monStep_of_core {m m' : Mon} {op : Op} {out : Out} {s' : Iter}
     (hc : monCore m op out (observe s') = (m', none)) (h' : Inv s') (hr' : R m' s') :
     (monStep m op out (observe s')).2 = none ∧ R (monStep m op out (observe s')).1 s' := by
   simp only [monStep, hc, monCommon_ok h' hr']
-  exact ⟨trivial, hr'⟩
+  obtain ⟨e1, e2, e3, e4, e5⟩ := shadowStep_fields m' op out
+  exact ⟨trivial, hr'.congr e1 e2 e3 e4 e5⟩
 
 /-! ## `next` -/
 
@@ -213,7 +236,7 @@ theorem or_not_intro {A B : Bool} (h : A = true → B = true) : (!A || B) = true
 theorem isFinished_false {s : Iter} (hf : s.state ≠ .finished) : isFinished s = false := by
   simp [isFinished, hf]
 
-theorem mon_next {m : Mon} {s : Iter} (h : Inv s) (hr : R m s) (now : Nat) :
+theorem mon_next {m : Mon} {s : Iter} (h : Inv s) (hr : R m s) (hr2 : R2 m s) (now : Nat) :
     (monStep m (.next now) (next s now).2 (observe (next s now).1)).2 = none ∧
     R (monStep m (.next now) (next s now).2 (observe (next s now).1)).1 (next s now).1 := by
   have h' : Inv (next s now).1 := h.next now
@@ -256,9 +279,17 @@ theorem mon_next {m : Mon} {s : Iter} (h : Inv s) (hr : R m s) (now : Nat) :
           obtain ⟨h1, _⟩ := next_fields hf now
           refine ⟨PState.waiting (now + s.cfg.peerTimeout), ?_, rfl⟩
           rw [h1]; exact find_of_mem (by have := h'.sorted; rwa [h1] at this) hmem.2
+        have hcap : m.nw < capOf m.cfg m.st := by
+          have hcf : atCapacity s = false := by
+            rcases nextLoop_ret _ _ _ _ _ _ _ hres with ⟨ho, _⟩ | ⟨_, _, hcap⟩
+            · simp at ho
+            · exact hcap
+          have := atCapacity_false hf hcf
+          rw [cap_eq_capOf] at this
+          rw [hr2.nw, hr.cfg, hr2.st hf]; exact this
         rw [hout]
         apply monStep_of_core (m' := { m with issued := p :: m.issued }) _ h' (by simpa using hR)
-        simp [monCore, hm, hnot, hlearned, observe, hwait]
+        simp [monCore, hm, hnot, hlearned, observe, hwait, hcap]
     · -- WaitingAtCapacity
       have hst : (next s now).1.state = s.state := by
         rcases hos with ⟨h1, _⟩ | ⟨_, h2⟩
@@ -470,11 +501,11 @@ theorem mon_failure {m : Mon} {s : Iter} (h : Inv s) (hr : R m s) (p : Nat) :
     · simp [monCore, hm, hiss]
 
 /-- **Spec ⊇ model**: the monitor accepts every step of the model and stays linked to it -/
-theorem mon_step_ok {m : Mon} {s : Iter} (h : Inv s) (hr : R m s) (op : Op) :
+theorem mon_step_ok {m : Mon} {s : Iter} (h : Inv s) (hr : R m s) (hr2 : R2 m s) (op : Op) :
     (monStep m op (step s op).2 (observe (step s op).1)).2 = none ∧
     R (monStep m op (step s op).2 (observe (step s op).1)).1 (step s op).1 := by
   cases op with
-  | next now => exact mon_next h hr now
+  | next now => exact mon_next h hr hr2 now
   | success p closer => exact mon_success h hr p closer
   | failure p => exact mon_failure h hr p
   | finish =>
